@@ -29,9 +29,42 @@ func ScaledOf(powers []*big.Int) ([]int64, int64) {
 
 func genPowers(rng *rand.Rand, n int) ([]*big.Int, string) {
 	ps := make([]*big.Int, n)
-	kind := rng.Intn(7)
+	kind := rng.Intn(9)
 	desc := ""
 	switch kind {
+	case 7:
+		// three groups of (almost) equal weight: the smallest is just under one third, so that
+		// each of the other two reaches two thirds only together with it -- the exact quorum boundary
+		desc = "boundary-thirds"
+		if n < 3 {
+			n = 3
+			ps = make([]*big.Int, n)
+		}
+		b := int64(1000 + rng.Intn(30000))
+		g := []int64{b + int64(rng.Intn(3)), b + int64(rng.Intn(3)), b - int64(rng.Intn(2))}
+		for i := range ps {
+			ps[i] = big.NewInt(0)
+		}
+		// members 0,1,2 carry the groups; further members split a group's weight
+		for i := 0; i < 3; i++ {
+			ps[i] = big.NewInt(g[i])
+		}
+		for i := 3; i < n; i++ {
+			src := i % 3
+			half := new(big.Int).Div(ps[src], big.NewInt(2))
+			if half.Sign() > 0 {
+				ps[i] = half
+				ps[src] = new(big.Int).Sub(ps[src], half)
+			} else {
+				ps[i] = big.NewInt(1)
+			}
+		}
+		return ps, desc
+	case 8:
+		desc = "int64-large"
+		for i := range ps {
+			ps[i] = new(big.Int).Lsh(big.NewInt(1+rng.Int63n(1<<20)), uint(26+rng.Intn(14)))
+		}
 	case 0:
 		desc = "uniform"
 		v := int64(1 + rng.Intn(1000))
@@ -114,6 +147,7 @@ func GenScenario(seed int64, class string, thorough bool) *Scenario {
 		n = 3 + rng.Intn(maxN-2)
 	}
 	powers, desc := genPowers(rng, n)
+	n = len(powers)
 	sc.PowerDesc = desc
 	sc.Instances = 1 + rng.Intn(2)
 	if thorough && rng.Intn(3) == 0 {
@@ -237,6 +271,26 @@ func GenScenario(seed int64, class string, thorough bool) *Scenario {
 			}
 		}
 	}
+	boundary := false
+	if desc == "boundary-thirds" && class == "async" {
+		// directed split at the exact quorum boundary: group 2 is Byzantine, groups 0 and 1 are the two honest camps
+		f2 := map[int]bool{}
+		for i := range sc.Members {
+			if i%3 == 2 {
+				f2[i] = true
+			}
+		}
+		if budgetOK(f2) {
+			boundary = true
+			for i := range sc.Members {
+				if f2[i] {
+					sc.Members[i].Kind = Byz
+				} else {
+					sc.Members[i].Kind = Honest
+				}
+			}
+		}
+	}
 	d := []time.Duration{500 * time.Millisecond, time.Second, 3 * time.Second}[rng.Intn(3)]
 	sc.Opts = Opts{
 		Delta:            d,
@@ -305,6 +359,28 @@ func GenScenario(seed int64, class string, thorough bool) *Scenario {
 		}
 	}
 	sc.Strategy = genStrategy(rng, sc)
+	if boundary {
+		sc.SplitInputs = true
+		if sc.Forks == 0 {
+			sc.Forks = 1
+		}
+		for i := range sc.Members {
+			delete(sc.GroupA, sc.Members[i].ID)
+			if i%3 == 0 {
+				sc.GroupA[sc.Members[i].ID] = true
+			}
+		}
+		sc.Strategy.Equivocate, sc.Strategy.Split, sc.Strategy.Forge, sc.Strategy.ActProb = true, true, true, 1.0
+		sc.Strategy.FastLinks = true
+		sc.Strategy.Disciplined = true
+		sc.Strategy.Impersonate = false
+		sc.Strategy.Misplace = false
+		if rng.Intn(2) == 0 {
+			sc.Sched = SchedPartition
+			sc.HealAt = time.Duration(100+rng.Intn(200)) * d
+		}
+		sc.DropProb = 0
+	}
 	return sc
 }
 
